@@ -15,7 +15,7 @@ impl Check for C05 {
         "C05"
     }
     fn ncases(&self, tier: Tier) -> u64 {
-        tier.sz(3000, 60000)
+        tier.sz(3000, 30000)
     }
     fn rule(&self) -> &'static str {
         "per case one generated grammar (all families incl. conflict-resolved tables; cyclic / reduce-looping grammars excluded), a token-cost table (all 1 / 1-3 / some 200-255), a random %avoid_insert set, and 6 (quick) or 8 (thorough) inputs with 1-5 independent token-level errors; parsed with CPCT+ under a logical step budget; the replay model (independent LR driver) checks every error's position and state, replays EVERY reported sequence (must shift what it inserts/shifts, delete the actual next lexemes, and then parse >= 3 more lexemes or accept), applies the first sequence (inserted lexemes zero-length, faulty, at the next real lexeme) and requires the returned tree to equal the model's tree node for node. Non-trivial = parse with an error that has >= 2 sequences, or >= 2 errors; distinct by (grammar, input, costs)."
@@ -24,7 +24,7 @@ impl Check for C05 {
         vec!["recovery runs under a logical step budget set through the lrpar verification hook (huge wall budget), so an empty repair list is never a scheduling artefact; parses where the budget ran out are still replayed"]
     }
     fn floor(&self, tier: Tier) -> u64 {
-        tier.sz(2000, 40000)
+        tier.sz(2000, 20000)
     }
     fn required_counters(&self, _t: Tier) -> Vec<&'static str> {
         vec!["parses_with_errors", "errors", "sequences_validated", "errors_with_2plus_sequences", "inserted_leaves_checked", "parses_with_2plus_errors", "trees_compared"]
